@@ -3,37 +3,45 @@
 (* C17 / C11 histories on the specification: every sequence of at most     *)
 (* MaxSources sources from a pool (accepted, rejected early / late, with   *)
 (* outlines, tags, ...) through ONE stream, for each of the 8 option sets. *)
+(* The print options are STATE of the stream object: between two sources   *)
+(* they may be changed (SetOptions, at most MaxChanges times per stream);  *)
+(* each source is processed under the options in force when it is fed.     *)
 (* Every reached stream is printed with the predicted envelopes for replay *)
 (* through the real GherkinEvents.                                         *)
 (***************************************************************************)
 EXTENDS Stream
-CONSTANT MaxSources
+CONSTANTS MaxSources, MaxChanges
 Pool == JsonDeserialize("pool.json")
-VARIABLES vSeq, vSegs, vNid, vOpts
-mvars == <<vSeq, vSegs, vNid, vOpts, vLines, vLine, vPs>>
-Init == /\ vSeq = <<>> /\ vSegs = <<>> /\ vNid = 0
+VARIABLES vSeq, vSegs, vNid, vOpts, vOptSeq, vChanges
+mvars == <<vSeq, vSegs, vNid, vOpts, vOptSeq, vChanges, vLines, vLine, vPs>>
+Init == /\ vSeq = <<>> /\ vSegs = <<>> /\ vNid = 0 /\ vOptSeq = <<>> /\ vChanges = 0
         /\ vOpts \in [source : BOOLEAN, ast : BOOLEAN, pickles : BOOLEAN]
         /\ vLines = <<>> /\ vLine = 0 /\ vPs = 0
 Feed(i) == /\ Len(vSeq) < MaxSources
            /\ LET r == Process(Pool[i], vNid, vOpts) IN
               /\ vSegs' = Append(vSegs, r.out) /\ vNid' = r.nid
-           /\ vSeq' = Append(vSeq, i)
-           /\ UNCHANGED <<vOpts, vLines, vLine, vPs>>
-Next == \E i \in 1..Len(Pool) : Feed(i)
+           /\ vSeq' = Append(vSeq, i) /\ vOptSeq' = Append(vOptSeq, vOpts)
+           /\ UNCHANGED <<vOpts, vChanges, vLines, vLine, vPs>>
+\* the caller assigns other options between two sources
+SetOptions(o) == /\ vChanges < MaxChanges /\ Len(vSeq) > 0 /\ Len(vSeq) < MaxSources /\ Len(vOptSeq) = Len(vSeq) /\ o # vOpts
+                 /\ vOpts' = o /\ vChanges' = vChanges + 1
+                 /\ UNCHANGED <<vSeq, vSegs, vNid, vOptSeq, vLines, vLine, vPs>>
+Next == (\E i \in 1..Len(Pool) : Feed(i)) \/ (\E o \in [source : BOOLEAN, ast : BOOLEAN, pickles : BOOLEAN] : SetOptions(o))
 Spec == Init /\ [][Next]_mvars
 
 AcceptedSeg(seg) == \A j \in 1..Len(seg) : seg[j].k # "error"
 Inv_C17_Order == \A j \in 1..Len(vSegs) : P_C17_Order(vSegs[j])
-Inv_C17_Options == \A j \in 1..Len(vSegs) : P_C17_Options(vSegs[j], vOpts, AcceptedSeg(vSegs[j]))
+Inv_C17_Options == \A j \in 1..Len(vSegs) : P_C17_Options(vSegs[j], vOptSeq[j], AcceptedSeg(vSegs[j]))
 Inv_C17_Uri == \A j \in 1..Len(vSegs) : P_C17_Uri(vSegs[j], Pool[vSeq[j]])
 \* a rejected source yields only parseError envelopes, one per error, and at least one
 Inv_C17_Rejected == \A j \in 1..Len(vSegs) : LET ps == ParseAll(SplitLines(Pool[vSeq[j]].data), "en", 0, CollectCap) IN
                        Rejected(ps) => Len(vSegs[j]) = Len(ps.bs.errs) /\ \A m \in 1..Len(vSegs[j]) : vSegs[j][m].k = "error"
 Inv_C11_Unique == P_C11_StreamUnique(vSegs)
 \* with everything printed and no rejected source the ids of the whole stream are 0, 1, 2, ... in emission order
-Inv_C11_Dense == (vOpts.ast /\ vOpts.pickles /\ \A j \in 1..Len(vSegs) : AcceptedSeg(vSegs[j])) =>
+Inv_C11_Dense == ((\A j \in 1..Len(vSegs) : vOptSeq[j].ast /\ vOptSeq[j].pickles) /\ \A j \in 1..Len(vSegs) : AcceptedSeg(vSegs[j])) =>
                     LET ids == FlattenSeq([j \in 1..Len(vSegs) |-> IdsOfSeg(vSegs[j])]) IN ids = [j \in 1..Len(ids) |-> j - 1]
 \* the counter never goes back; each source's envelopes depend only on the source and the counter at its start
 Act_Monotone == [][vNid' >= vNid]_mvars
-Emit == PrintT(<<"STREAM", ToJson([seq |-> vSeq, opts |-> vOpts, segs |-> vSegs, nid |-> vNid])>>)
+\* (a state right after SetOptions prints nothing new: the stream so far was printed before)
+Emit == (Len(vOptSeq) = Len(vSeq) /\ (vSeq = <<>> \/ vOptSeq[Len(vOptSeq)] = vOpts)) => PrintT(<<"STREAM", ToJson([seq |-> vSeq, opts |-> vOpts, optseq |-> vOptSeq, segs |-> vSegs, nid |-> vNid])>>)
 =============================================================================
